@@ -6,14 +6,15 @@
                                      11 Pick(object a) 12 Obj(request a carries object b) 13 Broadcast (cond API)
                                      14 CRead(consumer a) 15 CWake(consumer a) 16 Corrupt(stored copy of request a)
                                      17 Offer(p=a, size=b) whose Marshal fails  18 Offer(p=a, size=b) whose storage write fails
-     observation = (result code, Size(), cond.waiting, len(cond.ch), consumers parked un-signalled in Read); a negative component means
+     observation = (result code, Size(), cond.waiting, len(cond.ch), consumers parked un-signalled in Read,
+                    cond.signals); a negative component means
                    "not observed after this label" (intermediate step of a free-running thread). *)
 From Verif Require Import Common.Base C02.Model.
 Local Open Scope Z_scope.
 
 Definition zcfg := (Z * Z * Z * Z)%type.
 Definition zlab := (Z * Z * Z)%type.
-Definition zobs := (Z * Z * Z * Z * Z)%type.
+Definition zobs := (Z * Z * Z * Z * Z * Z)%type.
 Definition zcase := (zcfg * list (zlab * zobs))%type.
 
 Definition cfg_of (z : zcfg) : cfg :=
@@ -50,13 +51,9 @@ Definition label_of (z : zlab) : option label :=
 Definition agree (observed model : Z) : bool := (observed <? 0) || (observed =? model).
 
 Definition obs_ok (o : zobs) (res : Z) (s : st) : bool :=
-  let '(r, sz, w, t, cw) := o in
+  let '(r, sz, w, t, cw, g) := o in
   agree cw (ccount false (cons s)) &&
-  agree r res &&
-  match lock s with
-  | Free => agree sz (size s) && agree w (waiting s)
-  | _ => true                      (* the mutex is held by a blocked thread: nothing can be read *)
-  end && agree t (b2z (tok s)).
+  agree r res && agree sz (size s) && agree w (waiting s) && agree t (b2z (tok s)) && agree g (sigs s).
 
 Fixpoint check_run (c : cfg) (s : st) (ls : list (zlab * zobs)) : bool :=
   match ls with
@@ -86,8 +83,7 @@ Fixpoint model_run (c : cfg) (s : st) (ls : list (zlab * zobs)) : list (option z
       match opt_bind (label_of zl) (step c s) with
       | None => [None]
       | Some (s', res) =>
-          Some (res, match lock s' with Free => size s' | _ => -1 end,
-                match lock s' with Free => waiting s' | _ => -1 end, b2z (tok s'), ccount false (cons s')) :: model_run c s' r
+          Some (res, size s', waiting s', b2z (tok s'), ccount false (cons s'), sigs s') :: model_run c s' r
       end
   end.
 
